@@ -90,10 +90,11 @@ static void ev_locate_exact(Rng& g, vf::Trace& tr) {
   std::vector<Vertex> vl = vertex_list(s);
   e["verts"] = jvlist(vl);
   bj::array carts;
+  bool on_lattice = true;
   for (auto& v : vl) {
     Eigen::VectorXd c = t.cartesian_coordinates(v, scale);
     bj::array a;
-    for (int i = 0; i < d; ++i) a.push_back(scaled_exact(c(i), qexp, "cartesian_coordinates"));
+    for (int i = 0; i < d; ++i) a.push_back(scaled_near(c(i), qexp, on_lattice));
     carts.push_back(a);
   }
   e["cart"] = carts;
@@ -101,9 +102,10 @@ static void ev_locate_exact(Rng& g, vf::Trace& tr) {
   if (nv == 1 || nv == 2 || nv == 4 || nv == 8) {  // 1/(dim+1) is exact only for powers of two
     Eigen::VectorXd bc = t.barycenter(s, scale);
     bj::array a;
-    for (int i = 0; i < d; ++i) a.push_back(scaled_exact(bc(i), qexp + 3, "barycenter"));
+    for (int i = 0; i < d; ++i) a.push_back(scaled_near(bc(i), qexp + 3, on_lattice));
     e["bary8"] = a;  // barycenter scaled by 8 * Q
   }
+  if (!on_lattice) e["off_lattice"] = true;
   tr.emit(e);
 }
 
